@@ -252,7 +252,14 @@ static void run_image(const std::map<std::string,std::string>& spec)
         if (US*rels.size() <= 3000000) for (unsigned long i=0;i<US;i++) sets.push_back(i); else sets = structured_family(sk,s,V,1,true);
         Universe Sets; Sets.build(FS,sk,s,V);
         binary_operation* ops[2] = { get_bop(POST_IMAGE(),FS,FR,FS, variant==0?"POST_IMAGE[bool]":variant==1?"POST_IMAGE[EV+]":"POST_IMAGE[MTint]"), get_bop(PRE_IMAGE(),FS,FR,FS, variant==0?"PRE_IMAGE[bool]":variant==1?"PRE_IMAGE[EV+]":"PRE_IMAGE[MTint]") };
-        dd_edge r(FS), rel(FR);
+        // the same operations with the result in a second set forest of the other reduction rule (operand Q -> result F and F -> Q),
+        // where the library offers the combination (integer distances: only fully-reduced results are offered)
+        Kind sk2 = sk; sk2.rr = sk.rr=='F' ? 'Q' : 'F';
+        forest* FS2 = make_forest(d,sk2,Pol());
+        binary_operation* ops2[2] = { nullptr, nullptr };
+        if (FS2) { ops2[0] = get_bop(POST_IMAGE(),FS,FR,FS2, variant==0?"POST_IMAGE[bool, other rule]":variant==1?"POST_IMAGE[EV+, other rule]":"POST_IMAGE[MTint, other rule]");
+                   ops2[1] = get_bop(PRE_IMAGE(),FS,FR,FS2, variant==0?"PRE_IMAGE[bool, other rule]":variant==1?"PRE_IMAGE[EV+, other rule]":"PRE_IMAGE[MTint, other rule]"); }
+        dd_edge r(FS), rel(FR), r2(FS2?FS2:FS);
         for (unsigned long ri : rels) {
             if (ctx.stop) break;
             Table rt = tab_from_index(ri, s.relPoints(), {0,1});
@@ -280,9 +287,25 @@ static void run_image(const std::map<std::string,std::string>& spec)
                 } catch (MEDDLY::error e) { violation("op-error","threw %s (%s:%u)", e.getName(), e.getFile(), e.getLine()); }
                 if (!tab_is_const(want)) note_nontrivial(hmix(variant*2+pre, ri*US+si));
             }
+            for (unsigned long si : sets) for (int pre=0; pre<2; pre++) {
+                if (!ops2[pre]) continue;
+                if (!case_lazy(fmt_case, (long)(pre ? (variant==0?"PRE_IMAGE bool, result in the other-rule forest":variant==1?"PRE_IMAGE EV+, result in the other-rule forest":"PRE_IMAGE MTint, result in the other-rule forest") : (variant==0?"POST_IMAGE bool, result in the other-rule forest":variant==1?"POST_IMAGE EV+, result in the other-rule forest":"POST_IMAGE MTint, result in the other-rule forest")), (long)si, (long)ri)) continue;
+                Table st = Sets.table(si), want(N);
+                if (variant==0) want = image_model(g,st,pre);
+                else for (long b=0;b<N;b++) { double m=INF; for (long a : (pre?g.succ[b]:g.pred[b])) { double v=st[a]; if (variant==2 && v<0) v=INF; m=std::min(m,v); } want[b] = m==INF ? (variant==1?INF:-1.0) : m+1; }
+                try {
+                    ops2[pre]->compute(Sets.e[si], rel, r2);
+                    if (variant==2) { Table x; read_eval(r2,sk2,s,x); bool okv=true; for (long p=0;p<N;p++) if (!((want[p]<0 && x[p]<0) || x[p]==want[p])) okv=false;
+                        if (!okv) violation("wrong-result","relation [%s] operand [%s]: result (other-rule forest) reads [%s], expected [%s] (negative = unreachable)", tab_str(rt).c_str(), tab_str(st).c_str(), tab_str(x).c_str(), tab_str(want).c_str()); }
+                    else { std::string err = check_result(r2,sk2,s,want,true);
+                        // a right function delivered as a non-canonical edge of the OTHER forest is its own semantic class (see known_findings.json)
+                        if (!err.empty()) violation(err.compare(0,12,"NONCANONICAL")==0?"image-other-rule-forest-noncanonical":"wrong-result","relation [%s] operand [%s], result in the other-rule forest: %s", tab_str(rt).c_str(), tab_str(st).c_str(), err.c_str()); }
+                } catch (MEDDLY::error e) { violation("op-error","threw %s (%s:%u)", e.getName(), e.getFile(), e.getLine()); }
+            }
             if (ctx.viol>ctx.maxviol && ctx.only<0 && ctx.upto<0) ctx.stop=true;
         }
-        r.detach(); rel.detach();
+        r.detach(); rel.detach(); r2.detach();
+        if (FS2) { std::string a2 = audit_forest(FS2,sk2); if (!a2.empty()) { strcpy(ctx.cur,(g_unit+" final audit of the other-rule result forest").c_str()); lz_fn_reset(); violation(a2.find("A5 quasi-reduced")!=std::string::npos ? "image-other-rule-forest-noncanonical" : "audit","%s: %s",sk2.name().c_str(),a2.c_str()); } }
         { std::string e = Sets.recheck(); if (!e.empty()) violation("operand-changed","%s",e.c_str()); }
         Sets.clear();
         std::string a = audit_forest(FS,sk); if (!a.empty()) { strcpy(ctx.cur,(g_unit+" final audit").c_str()); lz_fn_reset(); violation("audit","%s: %s",sk.name().c_str(),a.c_str()); }
